@@ -1,6 +1,7 @@
 """C18 diagonalize and SBRG return circuits that really diagonalize."""
 import itertools
 import numpy as np
+from fractions import Fraction
 import oracle as O
 import gen as G
 import enc as E
@@ -9,9 +10,9 @@ import circ_util as CU
 
 RULE = ('non-identity strings with sign x target qubit i0 x causal on/off (exhaustive N<=3, random N<=7); kernels front / condense / '
         'pauli_is_onsite / pauli_diagonalize1/2 against the model; pure states with signs (N<=6); commuting-term Hamiltonians (exactness, '
-        'spectrum) and arbitrary Hamiltonians (diagonal form) with dyadic coefficients, N<=4. non-trivial = operator not already Z on '
+        'spectrum) and arbitrary Hamiltonians (diagonal form) with dyadic coefficients, N<=5, against dense matrices and against Model/SBRG.lean (effective Hamiltonian term by term, circuit layers, circuit action). non-trivial = operator not already Z on '
         'the target; distinct = distinct inputs.')
-ASSUMPTIONS = ['SBRG is checked against dense matrices and the property statement only (argmax over float magnitudes, truncation and tolerance are not modelled)']
+ASSUMPTIONS = ['SBRG: the model takes the leading-term indices chosen by the code (numpy.argmax over float magnitudes) as a parameter and exact rational coefficients; coefficients are compared to 1e-9 relative']
 
 
 def coefmap_poly(p):
@@ -167,8 +168,9 @@ def run(ctx):
         except Exception as e:
             ctx.fail('diagonalize', 'implementation raised %r' % e, dict(rows=rows))
     # SBRG
+    sbid = 0
     for _ in range(ctx.budget(60, 600)):
-        n = rng.choice([2, 3, 4])
+        n = rng.choice([2, 3, 4, 5])
         commuting = rng.random() < 0.5
         if commuting:
             rows, _r = G.rand_tableau(rng, n, 0)
@@ -182,7 +184,7 @@ def run(ctx):
             if not strs:
                 continue
         else:
-            strs = list(dict.fromkeys(G.rand_letters(rng, n, 0.7) for _k in range(rng.randrange(2, 6))))
+            strs = list(dict.fromkeys(G.rand_letters(rng, n, 0.7) for _k in range(rng.randrange(2, 9))))
             strs = [s for s in strs if any(c != 'I' for c in s)]
             if not strs:
                 continue
@@ -193,11 +195,50 @@ def run(ctx):
         if rng.random() < 0.3:        # a constant (identity) term, sometimes the largest coefficient
             terms.insert(rng.randrange(len(terms) + 1), ((tuple('I' * n), 0), complex(rng.choice([32.0, 0.125, -64.0]))))
         H0 = impl.poly(terms)
-        rep = dict(N=n, terms=terms, commuting=commuting)
+        rate = rng.choice([2.0, 2.0, 1.0, 1.5, 0.5, 3.0])
+        tol = rng.choice([1e-8, 1e-8, 2.0 ** -12])
+        rep = dict(N=n, terms=terms, commuting=commuting, max_rate=rate, tol=tol)
+        leads = []
+        _argmax = np.argmax
+
+        def rec_argmax(a, *args, **kw):
+            v = _argmax(a, *args, **kw)
+            leads.append(int(v))
+            return v
         try:
-            heff, circ = CI.SBRG(H0)
+            np.argmax = rec_argmax          # record the leading term the code picks at every iteration
+            try:
+                heff, circ = CI.SBRG(H0, max_rate=rate, tol=tol)
+            finally:
+                np.argmax = _argmax
         except Exception as e:
             ctx.fail('SBRG', 'implementation raised %r' % e, rep); continue
+        # correspondence with Model/SBRG.lean on the same Hamiltonian and the same choice of leading terms
+        sbid += 1
+        fr = Fraction(rate)
+        ft = Fraction(1, 10 ** 8) if tol == 1e-8 else Fraction(tol)
+        ans = ctx.drv.ask('circ sb%d sbrg %d %s %s %d %d %d %d' % (sbid, n, E.epoly(H0.gs, H0.ps, H0.cs), E.eints(leads) if leads else '_',
+                                                              fr.numerator, fr.denominator, ft.numerator, ft.denominator))
+        ctx.count('corr:sbrg'); ctx.traces += 1
+        iv = [(O.from_gp(g, 0)[0], int(p_), complex(c)) for g, p_, c in zip(heff.gs, heff.ps, heff.cs)]
+        if ans.startswith('ok '):
+            mv = [(O.from_gp(g, 0)[0], p_, complex(float(c[0]), float(c[1]))) for g, p_, c in E.dpoly(ans.split(" ")[1])]
+            same = len(mv) == len(iv) and all(a[0] == b[0] and a[1] == b[1] and abs(a[2] - b[2]) <= 1e-9 * max(1.0, abs(b[2])) for a, b in zip(mv, iv))
+            if not same:
+                ctx.mismatch('SBRG', 'sbrg heff', str(mv)[:700], str(iv)[:700], dict(rep=rep, leads=leads))
+            ml = ctx.drv.ask('circ sb%d layers' % sbid)
+            il = CU.impl_layers(circ)
+            if ml != il:
+                ctx.mismatch('SBRG', 'sbrg circuit layers', ml, il, dict(rep=rep, leads=leads))
+            probes = [G.rand_op(rng, n) for _q in range(3)] + G.id_map_ops(n)
+            lst = impl.plist(probes)
+            circ.forward(lst)
+            a2 = ctx.drv.ask('circ sb%d fwd L 0 %s _ - none' % (sbid, H.erows_ops(probes)))
+            mv2 = H.drows_ops(a2.split(' ')[2]) if a2.startswith('ok ') else a2
+            if mv2 != impl.ops_of(lst):
+                ctx.mismatch('SBRG', 'sbrg circuit forward', str(mv2)[:500], str(impl.ops_of(lst))[:500], dict(rep=rep, leads=leads))
+        else:
+            ctx.mismatch('SBRG', 'sbrg', ans, str(iv)[:500], dict(rep=rep, leads=leads))
         hm = coefmap_poly(heff)
         ctx.case(('sbrg', tuple(terms)), True, sample=dict(op='SBRG', N=n, commuting=commuting, terms=len(terms), heff_terms=len(hm)))
         ctx.count('sbrg:' + ('commuting' if commuting else 'generic'))
